@@ -178,7 +178,10 @@ def build_case(spec):
         kwargs["one_rdms"] = {k: v.copy() for k, v in one_rdms.items()}
     extra = {}
     if spec.get("mo_spin"):
-        if mo.get("occs_aminusb") is not None:
+        if spec["mo_spin"] == "restricted_codes" and mo["kind"] == "restricted":
+            # as loaded from a restricted WFN file with a $MOSPIN section (used by C09 only)
+            extra["mo_spin"] = np.full(mo["norba"], 3)
+        elif mo.get("occs_aminusb") is not None:
             # the announced conversion writes alpha and beta orbitals separately
             extra["mo_spin"] = np.array([1] * mo["norba"] + [2] * mo["norbb"])
         elif mo["kind"] == "restricted":
